@@ -1477,7 +1477,15 @@ def format_template(source: str, template_match: NamedTuple, **callables) -> str
     def fill_wildcard(slot: re.Match) -> str:
         name = slot.group(1)
         if name in template_match_asdict:
-            return unparse(template_match_asdict[name])
+            filled = unparse(template_match_asdict[name])
+            # A wildcard that stands alone at the start of an indented template line (a statement
+            # slot) may be bound to a compound statement: the other lines of its text belong at the
+            # indentation of the slot as well.
+            line_start = slot.string.rfind("\n", 0, slot.start()) + 1
+            indentation = slot.string[line_start : slot.start()]
+            if "\n" in filled and indentation and not indentation.strip():
+                filled = filled.replace("\n", "\n" + indentation)
+            return filled
         unfilled_wildcards.append(slot.group())
         return slot.group()
 
